@@ -148,6 +148,12 @@ def check(run, prog, tier):
                                                  "quantarhei.qm.propagators.statevectorevolution.StateVectorEvolution"], 22,
                            "the time step is in femtoseconds: the expansion diverges or follows a different generator")
 
+    run.rule("C02-I", "every generator component the propagator reads under a flag was assigned on every constructor "
+                      "path that sets the flag (constructor typestate; 'with and without pure dephasing' includes pure "
+                      "dephasing without a relaxation tensor)", minimum=40)
+    from .. import typestate
+    typestate.check(run, "C02-I", prog, prog.cls(RDM), "propagate", "propagate()")
+
     cls = prog.cls(RDM)
     nloops = 0
     routines = [f for name, f in cls.methods.items() if name.startswith("__propagate")]
